@@ -56,6 +56,7 @@ type Cmd struct {
 	Key    string // module-specific key of the entry addressed ("" for clear)
 	Err    string // error returned to the agent ("" = ok)
 	At     time.Time
+	DoneAt time.Time // when the answer was sent
 }
 
 // Tables is a copy of the module state.
@@ -219,6 +220,7 @@ func (sv *service) ModuleCommand(ctx context.Context, req *pb.CommandRequest) (*
 	defer func() {
 		s.inflight--
 		s.last = time.Now()
+		s.cmds[seq-1].DoneAt = s.last
 	}()
 
 	if fault.Fail != "" {
